@@ -10,6 +10,7 @@ import (
 	"fmt"
 	"sort"
 	"strings"
+	"sync"
 
 	"verif/harness/internal/core"
 	"verif/harness/internal/hookrt"
@@ -35,20 +36,33 @@ type Recorder struct {
 	Hooks   map[string]int64 // images per hook name
 	Skipped int64            // identical consecutive images dropped
 	Filter  func(hook string) bool
+	mu      sync.Mutex
 }
 
 func NewRecorder(root string, rt *hookrt.RT) *Recorder {
 	rc := &Recorder{Root: root, Hooks: map[string]int64{}}
 	rt.OnHook(func(name string, v any, hit int64) {
-		if rc.Enabled && (rc.Filter == nil || rc.Filter(name)) {
+		rc.mu.Lock()
+		on := rc.Enabled
+		rc.mu.Unlock()
+		if on && (rc.Filter == nil || rc.Filter(name)) {
 			rc.Capture(name)
 		}
 	})
 	return rc
 }
 
+// SetEnabled switches imaging on or off (safe against hook callbacks on other goroutines).
+func (rc *Recorder) SetEnabled(on bool) {
+	rc.mu.Lock()
+	rc.Enabled = on
+	rc.mu.Unlock()
+}
+
 // Capture takes an image now.
 func (rc *Recorder) Capture(hook string) {
+	rc.mu.Lock()
+	defer rc.mu.Unlock()
 	img, err := core.Snapshot(rc.Root)
 	if err != nil {
 		return
